@@ -104,6 +104,15 @@ pub mod iter {
         { unimplemented!() }
     }
 
+    /// R20: what a `for` loop iterates over
+    pub trait ToIter<T> { fn to_iter(self) -> Iter<T>; }
+    impl<T> ToIter<T> for Iter<T> {
+        fn to_iter(self) -> (r: Iter<T>) ensures r == self { self }
+    }
+    impl<T> ToIter<T> for Vec<T> {
+        #[verifier::external_body]
+        fn to_iter(self) -> (r: Iter<T>) ensures r@.items == self@, !r@.endless { unimplemented!() }
+    }
     /// R10: `.into_iter()` on a Vec
     pub trait IntoIterShim<T> { fn into_iter_(self) -> Iter<T>; }
     impl<T> IntoIterShim<T> for Vec<T> {
